@@ -18,7 +18,7 @@
      len_bounds_* / len_suffices_*   Msg.Len bounds what is advanced over, and a buffer
                       with room for Len never fails for lack of room. *)
 From Sdns Require Import Common.Base Gen.C15 C15.Model C15.Proofs_bits C15.Proofs_select C15.Proofs_buf
-                         C15.Proofs_pack C15.Proofs_clone C15.Proofs_refute.
+                         C15.Proofs_pack C15.Proofs_clone C15.Proofs_refute C15.Concrete C15.Proofs_concrete.
 
 (* ---- translator ties: constants re-read from pack.go ---- *)
 
@@ -292,3 +292,46 @@ Theorem packclone_eq_libpack :
    snd (pack_clone Name Body CMap name_zero cm_empty cm_len pack_name pack_rr q_len rr_len st m) = m).
 Proof. exact packclone_eq_libpack_l. Qed.
 Print Assumptions packclone_eq_libpack.
+
+(* ---- nothing assumed: the concrete library primitives ---- *)
+
+(* C15.Concrete models packDomainName with its compression dictionary (escape-free names) and
+   packRR for step-sequence records (A — including the octet-skipping 16-byte form —, AAAA,
+   NS, CNAME, PTR, MX, DNAME, NULL, option-less OPT); both are tied to the Go code octet by
+   octet by the name / concrete cases of the wire driver.  Every premise used above holds
+   for them: *)
+Theorem concrete_primitives_satisfy_the_premises :
+  in_place_name name dict pack_name_c /\ in_place_rr name body dict pack_rr_c /\
+  frame_name name dict pack_name_c /\ frame_rr name body dict pack_rr_c /\ in_bounds_rr name body dict pack_rr_c /\
+  same_success_name name dict pack_name_c /\ same_success_rr name body dict pack_rr_c /\
+  len_bounds_name name dict pack_name_c q_len_c /\ len_bounds_rr name body dict pack_rr_c rr_len_c /\
+  len_suffices_name name dict pack_name_c q_len_c /\ len_suffices_rr name body dict pack_rr_c rr_len_c.
+Proof. exact concrete_premises. Qed.
+Print Assumptions concrete_primitives_satisfy_the_premises.
+
+(* hence, for every message over those records, every pooled state within the invariant and
+   every dictionary: what TryPack hands out is exactly what dns.Msg.Pack returns *)
+Theorem concrete_trypack_is_libpack : forall st m bytes, pool_inv name body dict [] [] st ->
+  tp_bytes name body dict (try_pack_c st m) = Some bytes -> exists m', lib_pack_c m = (LOk bytes, m').
+Proof. exact concrete_trypack_is_libpack_l. Qed.
+Print Assumptions concrete_trypack_is_libpack.
+
+Theorem concrete_pool_state_noninterference : forall st1 st2 m,
+  pool_inv name body dict [] [] st1 -> pool_inv name body dict [] [] st2 ->
+  tp_bytes name body dict (try_pack_c st1 m) = tp_bytes name body dict (try_pack_c st2 m) /\
+  tp_handled name body dict (try_pack_c st1 m) = tp_handled name body dict (try_pack_c st2 m).
+Proof. exact concrete_pool_state_noninterference_l. Qed.
+Print Assumptions concrete_pool_state_noninterference.
+
+Theorem concrete_schedules_see_a_fresh_packer : forall es s,
+  sched_ok name body dict [] [] cm_len_c pack_name_c pack_rr_c q_len_c rr_len_c s ->
+  sched_ok name body dict [] [] cm_len_c pack_name_c pack_rr_c q_len_c rr_len_c
+           (sched_run name body dict [] [] cm_len_c pack_name_c pack_rr_c q_len_c rr_len_c es s).
+Proof. exact concrete_schedules_l. Qed.
+Print Assumptions concrete_schedules_see_a_fresh_packer.
+
+Theorem concrete_packclone_is_libpack : forall st m, pool_inv name body dict [] [] st ->
+  fst (fst (pack_clone_c st m)) = fst (lib_pack_c m) /\
+  (forallb admissible_rr (shapes name body (m_records name body m)) = true -> snd (pack_clone_c st m) = m).
+Proof. exact concrete_packclone_is_libpack_l. Qed.
+Print Assumptions concrete_packclone_is_libpack.
